@@ -25,6 +25,11 @@ def configs(tier):
                     if n >= 5 and (grant != "refresh" or outs not in (["success"], ["oauth_error", "success"])):
                         continue
                     out.append({"n": n, "grant": grant, "has_cb": has_cb, "outcomes": outs, "stream": n % 2 == 1})
+    # a token response without expiry information (expires_in is only RECOMMENDED), and a clock standing inside the second of expiry
+    for n in (2, 3):
+        out.append({"n": n, "grant": "refresh", "has_cb": True, "outcomes": ["success"], "stream": False, "resp": "no-expiry"})
+        out.append({"n": n, "grant": "client_credentials", "has_cb": True, "outcomes": ["success"], "stream": n == 3, "resp": "no-expiry"})
+        out.append({"n": n, "grant": "refresh", "has_cb": True, "outcomes": ["success"], "stream": n == 3, "clock": "fraction"})
     return out
 
 
